@@ -41,7 +41,11 @@ RULE = ("a case = (history of 3-6 batches / multi-dataset transactions / clean r
         "EXISTING entities but adds never-seen predicates and reference targets (ids are assigned for those too), crashed at every point "
         "x hit 1..3 and closed cleanly, tail = retry + writes of the new targets; (b) dataset-management cases: acknowledged writes, then "
         "create / delete / rename dies at each create.* / delete.* / rename.* hook point (or completes), the parent reopens, reads every "
-        "registered dataset, creates and writes a fresh dataset, runs GarbageCollector.Cleandeleted and reads again")
+        "registered dataset, creates and writes a fresh dataset (and re-creates + writes a deleted name), runs GarbageCollector.Cleandeleted "
+        "and reads again; datasets created without / with publicNamespaces; (c) ONE batch of 66000 generated entities through "
+        "Dataset.StoreEntities, refused because of its last entity / killed at its first batch.afterCommit (thorough: more points), "
+        "judged on counts; (d) a batch refused (nil reference) at the very instant another writer stands at batch/txn.beforeIdCommit "
+        "or afterIdCommit holding uncommitted new ids (run inside the hook), then clean close, reopen, reads by URI, same write again")
 TRUSTED = [
     "badger: a committed transaction is atomic and durable, Sequence leases are persisted before first use (a crash here is process death "
     "at a hook point or by SIGKILL, not power loss; the OS page cache survives)",
@@ -105,9 +109,14 @@ def witness_cases():
     for m, p in (({"op": "create", "ds": "n"}, "create.afterRecord"), ({"op": "create", "ds": "n"}, "create.afterNextId"),
                  ({"op": "delete", "ds": "a"}, "delete.afterDeletedSet"), ({"op": "delete", "ds": "a"}, "delete.afterRecord"),
                  ({"op": "rename", "ds": "a", "to": "r"}, "rename.afterMove")):
-        c = mk_case(["a", "b"], [b1, b2], {"point": p, "hit": 1}, [], pool)
+        c = mk_case(["a", "b"], [b1, b2], {"point": p, "hit": 1}, [], pool + ["w1"])
         c["mgmt"] = m
         res.append(c)
+    # acknowledged delete of a dataset created with publicNamespaces, clean close, restart
+    c = mk_case(["a", "b"], [b1, b2], None, [], pool + ["w1"])
+    c["mgmt"] = {"op": "delete", "ds": "a"}
+    c["public"] = True
+    res.append(c)
     return res
 
 
@@ -163,15 +172,57 @@ def gen_mgmt(rng, nh):
             m = {"op": op, "ds": "n" if op == "create" else rng.choice(["a", "b"])}
             if op == "rename":
                 m["to"] = "r"
-            for p in pts + [None]:
-                c = mk_case(["a", "b"], writes, {"point": p, "hit": 1} if p else None, [], pool)
-                c["mgmt"] = m
-                cases.append(c)
+            for public in (False, True):
+                for p in pts + [None]:
+                    if public and op != "delete" and p is not None:
+                        continue
+                    c = mk_case(["a", "b"], writes, {"point": p, "hit": 1} if p else None, [], pool + ["w1"])
+                    c["mgmt"] = m
+                    if public:
+                        c["public"] = True
+                    cases.append(c)
     return cases
 
 
+LONG_N = 66000      # > 65536: the version key holds uint16(position in batch)
+
+
+def long_cases(tier):
+    """ONE batch of LONG_N generated entities through Dataset.StoreEntities: refused because of its LAST entity / killed at the first
+    batch.afterCommit of the long batch (hits 1, 2 = the small acknowledged batch and its counter write) / at the id commit"""
+    small = {"op": "batch", "ds": "a", "ents": [plain("e1", "a"), plain("e2", "b"), plain("e3", "c")]}
+    res = []
+    specs = [(True, None), (False, {"point": "batch.afterCommit", "hit": 3})]
+    if tier != "quick":
+        specs += [(False, {"point": "batch.afterIdCommit", "hit": 3}), (False, {"point": "batch.afterCommit", "hit": 4}), (False, None),
+                  (True, {"point": "batch.beforeIdCommit", "hit": 3})]
+    for bad, crash in specs:
+        c = mk_case(["a"], [small], crash, [], ["e1", "e2", "e3"])
+        c["long"] = {"ds": "a", "n": LONG_N, "bad": bad}
+        res.append(c)
+    return res
+
+
+def refuse_cases(rng, n):
+    """writer one (last op, dataset a or a transaction) stands at a hook point holding uncommitted new ids; writer two's batch on
+    dataset b is refused (nil reference) at that very instant; then a clean close, reopen, reads by URI, the same write again"""
+    res = []
+    for k in range(n):
+        w1 = {"op": "batch", "ds": "a", "ents": [{"id": "e%d" % (30 + k), "props": {"p1": "o"}, "refs": {"r%d" % (30 + k): "e%d" % (40 + k)}}]}
+        if k % 3 == 2:
+            w1 = {"op": "txn", "sets": [{"ds": "a", "ents": w1["ents"]}]}
+        pre = sc.gen_writes(rng, 2, rng.range(1, 2), sc.IDS[:3], rich=False)
+        pt = ("txn." if w1["op"] == "txn" else "batch.") + ["beforeIdCommit", "afterIdCommit", "afterCommit"][k % 3 if w1["op"] == "batch" else 0]
+        c = mk_case(["a", "b"], pre + [w1], None, [w1, {"op": "batch", "ds": "b", "ents": [plain("e%d" % (40 + k), "t")]}],
+                    sc.IDS[:3] + ["e%d" % (30 + k), "e%d" % (40 + k), "e%d" % (50 + k)])
+        c["refuse"] = {"ds": "b", "at": pt, "ents": [{"id": "e%d" % (50 + k), "props": {"p1": "x"}, "refs": {"r%d" % (50 + k): "e1"}}]}
+        res.append(c)
+    return res
+
+
 def gen(rng, tier):
-    return gen_writes_cases(rng, tier) + gen_newpred_cases(rng, tier) + gen_mgmt(rng, {"quick": 1, "thorough": 6, "search": 2}[tier])
+    return (gen_writes_cases(rng, tier) + gen_newpred_cases(rng, tier) + gen_mgmt(rng, {"quick": 1, "thorough": 6, "search": 2}[tier])
+            + long_cases(tier) + refuse_cases(rng, {"quick": 6, "thorough": 30, "search": 9}[tier]))
 
 
 def gen_newpred_cases(rng, tier):
@@ -392,6 +443,12 @@ def term(c, o):
     if c.get("mgmt"):
         # dataset-management cases are judged by the harness-level oracle (mgmt_problems); the Coq model has no dataset registry
         return NEUTRAL if (o.get("outcome") == "ok" and o.get("mgmt")) else BAD
+    if c.get("long"):
+        return NEUTRAL if (o.get("outcome") == "ok" and o.get("long")) else BAD
+    if c.get("refuse"):
+        # a refused batch leaves its own pending ids in the shared id transaction (committed by the next writer): Model/Crash.v has
+        # no pending ids between writes, Model/CrashExt.v (idtxn) does; the case is judged by refuse_problems
+        return NEUTRAL if usable(o) else BAD
     if not usable(o):
         return BAD
     kind, idx, phase, cdone, order = crash_position(c, o)
@@ -558,6 +615,9 @@ def mgmt_problems(c, o):
     if m.get("err") or m.get("new_err") or m.get("gc_err"):
         out.append("errors: %s %s %s" % (m.get("err"), m.get("new_err"), m.get("gc_err")))
     mg = c["mgmt"]
+    done = [t for t in o.get("trace") or [] if t["k"] == "mgmtdone"]
+    if mg["op"] == "delete" and done and not done[0].get("err") and any(d["name"] == mg["ds"] for d in m["reg"]["datasets"]):
+        out.append("the delete of dataset %s was acknowledged and the dataset is registered again after the restart" % mg["ds"])
     for what, reg, dump in (("after reopen", m["reg"], m["after"]), ("after creating dataset zz", m["reg2"], m["after2"]),
                             ("after garbage collection", m["reg2"], m["after3"])):
         ids = [d["id"] for d in reg["datasets"]]
@@ -572,6 +632,11 @@ def mgmt_problems(c, o):
         for d in dump["ds"]:
             name = d["name"]
             got = canon_ds(dump, name)
+            if name == mg["ds"] and m.get("recreated") and what != "after reopen":
+                if len(got["changes"]) != 1 or len(got["listing"]) != 1 or len(got["gets"]) != 1:  # pool of mgmt cases contains w1
+                    out.append("%s: dataset %s was deleted, created again and written once; it holds %d change entries / %d entities / %d found by URI" % (
+                        what, name, len(got["changes"]), len(got["listing"]), len(got["gets"])))
+                continue
             if name == "zz":
                 if len(got["changes"]) != 1 or len(got["listing"]) != 1:
                     out.append("%s: the fresh dataset zz holds %d change entries / %d entities instead of the 1 written" % (what, len(got["changes"]), len(got["listing"])))
@@ -585,6 +650,60 @@ def mgmt_problems(c, o):
     return out
 
 
+def long_problems(c, o):
+    """a batch is one unit whatever its length: refused => nothing of it; killed => nothing or all of it; stored again => all, once"""
+    l = o.get("long")
+    if o.get("outcome") != "ok" or not l:
+        return ["driver outcome %s: %s" % (o.get("outcome"), (o.get("detail") or "")[:300])]
+    n, base = c["long"]["n"], l["base"]
+    out = []
+    a, f = l["after"], l["final"]
+    if c["long"].get("bad") and l["err"] == "":
+        out.append("a batch ending in an entity with a nil reference was accepted")
+    if l["err"] not in ("", "?") or c["long"].get("bad"):
+        allowed = [base]                       # refused (or would have been): entirely absent
+    elif l["err"] == "":
+        allowed = [base + n]                   # acknowledged
+    else:
+        allowed = [base, base + n]             # never returned
+    if a["changes"] not in allowed or a["latest"] not in allowed or a["changes"] != a["latest"]:
+        out.append("after reopen the dataset has %d change entries / %d entities; the long batch of %d (status %r) allows only %s" % (
+            a["changes"], a["latest"], n, l["err"], allowed))
+    if a["changes"] == base + n and not a["found"]:
+        out.append("the batch is present but its last entity is not found through its URI")
+    if not (a["maxseq"] < a["dseq"] or a["changes"] == 0):
+        out.append("next change position %d is not beyond the last one in use %d" % (a["dseq"], a["maxseq"]))
+    if l["retry"]:
+        out.append("storing the batch again failed: " + l["retry"])
+    elif f["changes"] != base + n or f["latest"] != base + n or not f["found"]:
+        out.append("after storing the batch (again) the dataset has %d change entries / %d entities, want %d" % (f["changes"], f["latest"], base + n))
+    return out
+
+
+def refuse_problems(c, o):
+    """a refused batch has no effect on any shared state: the other writer's acknowledged write is complete and findable by URI, the
+    refused batch's dataset is unchanged, storing the same write again adds nothing"""
+    if not usable(o):
+        return ["driver outcome %s: %s" % (o.get("outcome"), (o.get("detail") or (o.get("after") or {}).get("err") or "")[:300])]
+    out = []
+    ref = [t for t in o["trace"] if t["k"] == "refused"]
+    if not ref:
+        out.append("the interleaving did not happen (hook point %s not reached)" % c["refuse"]["at"])
+    elif not ref[0].get("err"):
+        out.append("the batch with a nil reference was accepted")
+    out += write_case_problems(c, o)
+    for name in c["datasets"]:
+        if canon_ds(o["after"], name) != canon_ds(o["refA"], name):
+            out.append("after restart dataset %s differs from the run without the refused batch" % name)
+    w1ds = [s_["ds"] for s_ in c["ops"][-1]["sets"]] if c["ops"][-1]["op"] == "txn" else [c["ops"][-1]["ds"]]
+    for name in w1ds:
+        a, f = canon_ds(o["after"], name), canon_ds(o["final"], name)
+        if a and f and (a["changes"] != f["changes"] or a["listing"] != f["listing"]):
+            out.append("storing the identical write again changed dataset %s: %d -> %d change entries, %d -> %d entities" % (
+                name, len(a["changes"]), len(f["changes"]), len(a["listing"]), len(f["listing"])))
+    return out
+
+
 def write_case_problems(c, o):
     out = []
     for name in ("after", "final"):
@@ -595,6 +714,10 @@ def write_case_problems(c, o):
 def predict_text(c, o):
     if c.get("mgmt"):
         return "dataset-management case (harness-level oracle): " + "; ".join(mgmt_problems(c, o) or ["no problem found"])
+    if c.get("long"):
+        return "long-batch case (harness-level oracle): " + "; ".join(long_problems(c, o) or ["no problem found"])
+    if c.get("refuse"):
+        return "refused-batch case (harness-level oracle): " + "; ".join(refuse_problems(c, o) or ["no problem found"])
     t = term(c, o)
     body = "Definition c : C04Check.tcase := %s.\n" % t
     body += ("Eval vm_compute in (map (fun v => C04Check.agree v c) C04Check.variants, C04Check.spec_core c, C04Check.spec_ok c, "
@@ -613,7 +736,7 @@ def counter_lag(o):
 
 
 def attribute(c, o):
-    if c.get("mgmt"):
+    if c.get("mgmt") or c.get("long") or c.get("refuse"):
         return None
     if usable(o) and write_case_problems(c, o):
         return None
@@ -629,6 +752,10 @@ def size(c):
 
 
 def classify(c, o):
+    if c.get("long"):
+        return "long-batch"
+    if c.get("refuse"):
+        return "refused-interleaved" if any(t["k"] == "refused" for t in o.get("trace") or []) else None
     if c.get("mgmt"):
         return "mgmt-" + c["mgmt"]["op"] if (c.get("crash") and o.get("exit") == 137) else None
     if not usable(o):
@@ -642,6 +769,10 @@ def classify(c, o):
 
 
 def tags(c, o):
+    if c.get("long"):
+        return ["long-batch", "bad=%s" % bool(c["long"].get("bad")), "point=" + ((c.get("crash") or {}).get("point") or "none"), "child-exit=%s" % o.get("exit")]
+    if c.get("refuse"):
+        return ["refused-batch", "at=" + c["refuse"]["at"], "outcome=" + o.get("outcome", "?")]
     if c.get("mgmt"):
         return ["mgmt=" + c["mgmt"]["op"], "point=" + ((c.get("crash") or {}).get("point") or "none"), "outcome=" + o.get("outcome", "?"),
                 "child-exit=%s" % o.get("exit")]
@@ -679,6 +810,16 @@ def main(tier, seed, replay=None):
                 pr = mgmt_problems(c, o)
                 if pr:
                     bad.append((i, c, o, "dataset management interrupted at %s: %s" % ((c.get("crash") or {}).get("point"), pr[0])))
+                continue
+            if c.get("long"):
+                pr = long_problems(c, o)
+                if pr:
+                    bad.append((i, c, o, "long batch (%d entities, crash %s): %s" % (c["long"]["n"], json.dumps(c.get("crash")), pr[0])))
+                continue
+            if c.get("refuse"):
+                pr = refuse_problems(c, o)
+                if pr:
+                    bad.append((i, c, o, "batch refused while another writer stood at %s: %s" % (c["refuse"]["at"], pr[0])))
                 continue
             if o.get("first_open"):
                 if F04B_SIGNATURE in o["first_open"] and o.get("exit") == -1:
